@@ -183,7 +183,7 @@ func (a *SequenceTracker[RelationType, StateType, ValueType]) initializeSequence
 		return state, false, err
 	}
 	a.sequences.Store(relationName.ToLower(), seq)
-	return state, true, nil
+	return seq, true, nil
 }
 
 func (a *SequenceTracker[RelationType, StateType, ValueType]) Close() {
